@@ -2038,11 +2038,14 @@ class _Duration(Duration):
 
     @staticmethod
     def delta_to_json(delta: timedelta) -> str:
-        parts = str(delta.total_seconds()).split(".")
-        if len(parts) > 1:
-            while len(parts[1]) not in (3, 6, 9):
-                parts[1] = f"{parts[1]}0"
-        return f"{'.'.join(parts)}s"
+        # Decimal seconds with 3 or 6 fractional digits, from integer microseconds
+        # (str() of a float switches to exponent notation below 1e-4).
+        total_us = delta // timedelta(microseconds=1)
+        sign = "-" if total_us < 0 else ""
+        seconds, us = divmod(abs(total_us), 10**6)
+        if us % 1000 == 0:
+            return f"{sign}{seconds}.{us // 1000:03d}s"
+        return f"{sign}{seconds}.{us:06d}s"
 
 
 class _Timestamp(Timestamp):
